@@ -315,7 +315,7 @@ def main(argv=None):
         # ---- floors ---------------------------------------------------------------
         floor_errors = []
         for label, (frac, denom_label) in meta.get("floors", {}).items():
-            denom = labels.get(denom_label, 0) if denom_label else evaluations
+            denom = labels.get(denom_label, 0) if denom_label else evaluations - labels.get("atheris-cases", 0)
             got = labels.get(label, 0)
             if denom and got < frac * denom:
                 floor_errors.append("label %r: %d of %d (< %.0f%%)" % (label, got, denom, frac * 100))
